@@ -60,15 +60,17 @@ def split_sm(v):
     return [s] + split_u(abs(v))
 
 
-def cell_outputs(cell):
-    """everything C20 observes on one cell, in storage order of cell.vertices (no reference kept)"""
+def cell_outputs(cell, u=0):
+    """everything C20 observes on one cell, in storage order of cell.vertices (no reference kept).
+    u: the cell was built with its lattice coordinates multiplied by 2**u (a change of length unit that is exact in binary
+    floating point); areas and lengths are converted back to lattice units by the exact factors 2**(-2u), 2**(-u)"""
     vs = list(cell.vertices)
     idx = {id(v): i + 1 for i, v in enumerate(vs)}
     out = {"raised": "", "a": [0, 0, 0], "sign": 0, "per": [0, 0], "nx": [], "pv": []}
     try:
-        out["a"] = split_sm(2.0 * float(cell.get_area()))
+        out["a"] = split_sm(2.0 * float(cell.get_area()) * 2.0 ** (-2 * u))
         out["sign"] = int(cell.get_area_sign())
-        per = float(cell.get_perimeter())
+        per = float(cell.get_perimeter()) * 2.0 ** (-u)
         out["per"] = split_u(per) if per >= 0 or not math.isfinite(per) else [0, 0]
         if per < 0:
             raise ValueError("negative perimeter")
@@ -102,11 +104,11 @@ def storage(P, s, rev):
     return [B[(i + s) % n] for i in range(n)]
 
 
-def variant(P, kind, rng, s=0, rev=False, t=(0, 0), k=1, tf=None):
+def variant(P, kind, rng, s=0, rev=False, t=(0, 0), k=1, tf=None, u=0):
     """build the stated storage of P as a real cell and log the code's outputs"""
     S = storage(P, s, rev)
     if tf is None:
-        coords = [(float(k * x + t[0]), float(k * y + t[1])) for x, y in S]
+        coords = [(float(k * x + t[0]) * 2.0 ** u, float(k * y + t[1]) * 2.0 ** u) for x, y in S]
     else:
         coords = [(x + tf[0], y + tf[1]) for x, y in S]
     v = {"kind": kind, "s": s, "rev": rev, "t": [int(t[0]), int(t[1])], "k": k, "exact": tf is None,
@@ -121,13 +123,14 @@ def variant(P, kind, rng, s=0, rev=False, t=(0, 0), k=1, tf=None):
     if tf is None:
         pts = []
         for w in cell.vertices:
-            if float(w.x) != int(w.x) or float(w.y) != int(w.y):
+            wx, wy = float(w.x) * 2.0 ** (-u), float(w.y) * 2.0 ** (-u)
+            if wx != int(wx) or wy != int(wy):
                 raise core.MachineryFailure("integral embedding produced a non-integral coordinate")
-            pts.append([int(w.x), int(w.y)])
+            pts.append([int(wx), int(wy)])
         v["pts"] = pts
     else:
         v["off"] = [[project.fx(w.x - S[i][0]), project.fx(w.y - S[i][1])] for i, w in enumerate(cell.vertices)]
-    v.update(cell_outputs(cell))
+    v.update(cell_outputs(cell, u))
     del cell, cells, edges, vertices
     return v
 
@@ -148,7 +151,9 @@ def poly_event(case, P, src, seed):
           variant(P, "rev", rng, s=rng.choice([0, rng.randint(0, n - 1)]), rev=True),
           variant(P, "tr", rng, t=t),
           variant(P, "scale", rng, k=k),
-          variant(P, "trf", rng, tf=tf)]
+          variant(P, "trf", rng, tf=tf),
+          # the same lattice polygon in another length unit (x 2**u: microns written in metres, or in nanometres)
+          variant(P, "unit", rng, u=rng.choice([-20, -27, -34, 17]))]
     return {"case": case, "ev": "Poly", "src": src, "P": P, "vars": vs}
 
 
@@ -164,7 +169,7 @@ def _poly_jobs(args):
 # ----------------------------------------------------------------------------------------
 # tissues
 # ----------------------------------------------------------------------------------------
-def tissue_event(case, pos, cells, k, src, rng):
+def tissue_event(case, pos, cells, k, src, rng, keep=False):
     """pos: {base vertex id: (int x, int y)}; cells: cycles of base ids. Integral embedding: scale by a
     multiple of k+1 so that the k interior points of every straight edge are lattice points."""
     scale = (k + 1) * rng.choice([1, 2, 3])
@@ -214,8 +219,58 @@ def tissue_event(case, pos, cells, k, src, rng):
                 o["raised"] = "calculate_neighbors " + type(exc).__name__ + ": " + str(exc)[:160]
         ev["cells"].append(o)
         del c
+    if keep:
+        ev["_objects"] = (vertices, edges, cs)
+        ev["_isb_of"] = lambda vs: [key in base_ids for key in vs]
+        return ev
     del cs, edges, vertices
     return ev
+
+
+def tissue_events(case, pos, cells, k, src, rng):
+    """the tissue as built, and (one case in three) the same live objects after one cell was removed through the public
+    API (ForSys.remove_cell): area, orientation and neighbours are read again from the surviving cells"""
+    state = rng.getstate()
+    evs = [tissue_event(case, pos, cells, k, src, rng)]
+    if len(cells) < 2 or evs[0]["raised"] or rng.random() > 0.34:
+        return evs
+    import forsys as fs
+    rng.setstate(state)
+    ev1 = tissue_event(case, pos, cells, k, src, rng, keep=True)
+    vertices, edges, cs = ev1.pop("_objects")
+    try:
+        with core.quiet_stdout():
+            frame = fs.frames.Frame(0, vertices, edges, cs, time=0)
+            forsys = fs.ForSys({0: frame}, cm=False)
+            victim = rng.choice(sorted(cs.keys()))
+            del frame
+            forsys.remove_cell(0, victim)
+    except Exception:
+        return evs        # frame construction / removal contracts are judged elsewhere (C08, edits2)
+    fr = forsys.frames[0]
+    try:
+        m, vidx, eidx, cidx = project.project_mesh(fr.vertices, fr.edges, fr.cells)
+    except Exception:
+        return evs
+    ev = {"case": case, "ev": "Tissue", "src": src + ":after_remove", "k": k, "raised": "", "cells": [],
+          "mesh": {"nv": m["nv"], "nc": m["nc"], "C": m["C"], "oc": m["oc"]},
+          "pos": [[int(fr.vertices[key].x), int(fr.vertices[key].y)] for key in fr.vertices],
+          "isb": ev1["_isb_of"](fr.vertices)}
+    for key in list(fr.cells.keys()):
+        c = fr.cells[key]
+        o = cell_outputs(c)
+        o.pop("nx"), o.pop("pv")
+        o["nb"] = []
+        if not o["raised"]:
+            try:
+                o["nb"] = [cidx.get(x, 0) for x in c.calculate_neighbors()]
+            except Exception as exc:
+                o["raised"] = "calculate_neighbors " + type(exc).__name__ + ": " + str(exc)[:160]
+        ev["cells"].append(o)
+        del c
+    if m["nc"] >= 1:
+        evs.append(ev)
+    return evs
 
 
 def _catalogue_job(args):
@@ -223,7 +278,7 @@ def _catalogue_job(args):
     base = catalogue.load(base_name)
     rng = random.Random(f"{seed}:{base_name}:{inst['sub']}:{inst['k']}")
     pos = {i + 1: (int(p[0]), int(p[1])) for i, p in enumerate(base["pos"])}
-    return case, [tissue_event(case, pos, inst["cells"], inst["k"], f"{base_name}:{inst['sub']}:k{inst['k']}", rng)]
+    return case, tissue_events(case, pos, inst["cells"], inst["k"], f"{base_name}:{inst['sub']}:k{inst['k']}", rng)
 
 
 def _voronoi_job(args):
@@ -236,7 +291,7 @@ def _voronoi_job(args):
     grid = rng.choice([200, 1000])
     pos = {v: (int(round(p[0] * grid)), int(round(p[1] * grid))) for v, p in fpos.items()}
     k = rng.choice([0, 0, 1, 2])
-    return case, [tissue_event(case, pos, keep, k, f"voronoi:seed{seed}:n{len(keep)}:k{k}:g{grid}", rng)]
+    return case, tissue_events(case, pos, keep, k, f"voronoi:seed{seed}:n{len(keep)}:k{k}:g{grid}", rng)
 
 
 # ----------------------------------------------------------------------------------------
